@@ -108,7 +108,7 @@ Lemma rheap_rev_node vals store (st : rstate S) j n :
 Proof.
 rewrite /rev_node /undo_step; case: (nop n) => [|c|k|op||f|m|m|k|k]; rewrite ?rheap_bar_add //.
   by case: op; rewrite !rheap_bar_add.
-case: (nth _ _ _) => // b; case: (nth _ _ _) => //=; by rewrite rheap_bar_add.
+case: (nth _ _ _) => // b; case: (nth _ _ _) => [old|]; rewrite ?rheap_bar_add //=; by rewrite rheap_bar_add.
 Qed.
 
 Lemma rollforwardE t vals h : R_rollforward t vals h = foldl (redo_step vals) h t.
